@@ -361,5 +361,6 @@ func runC13(r *run) {
 	c13KeptList(r)
 	failingDestinationLeaves(r.violate)
 	subloggerDiagnostics(r.violate)
+	envProbe(r, false, "fullstdout")
 	slog.VerifResetGlobals()
 }
